@@ -1168,7 +1168,7 @@ class Repr(EnvironmentFilter):
         if not (self._cat_actions and has_action):
             cat_action_iter = None
         else:
-            cat_action_iter = pipes.EncodeCatRows(self._cat_context).filter(i['action'] for i in next(tees))
+            cat_action_iter = pipes.EncodeCatRows(self._cat_actions).filter(i['action'] for i in next(tees))
 
         reward_targets = []
         if has_rewards   and callable(first['rewards'])  : reward_targets.append('rewards')
